@@ -36,7 +36,22 @@ def run_one(pid: str, tier: str) -> int:
     except ModuleNotFoundError as e:
         print(f"ANALYSIS-ERROR property={pid} no rule module: {e}")
         return 2
-    code = core.run_check(pid, tier, mod.run, level=LEVELS.get(pid, "other"))
+    # time budget for the analysis proper (a mutated tree can make a symbolic comparison blow up): the run ends
+    # as analysis-broken instead of hanging.  The self-test battery of the thorough tier has its own timeouts.
+    budget = int(os.environ.get("VERIF_BUDGET_S", "240"))
+
+    def _over(signum, frame):
+        raise core.AnalysisError(f"time budget of {budget} s exceeded (a symbolic comparison did not terminate in time)")
+
+    import signal
+
+    old = signal.signal(signal.SIGALRM, _over)
+    signal.alarm(budget)
+    try:
+        code = core.run_check(pid, tier, mod.run, level=LEVELS.get(pid, "other"))
+    finally:
+        signal.alarm(0)
+        signal.signal(signal.SIGALRM, old)
     if tier == "thorough" and code == 0 and hasattr(mod, "selftest") and os.environ.get("VERIF_NO_SELFTEST") != "1":
         from engine import selftest
 
